@@ -3,7 +3,7 @@
  "name": "adjust_ea_refcount",
  "props": ["C15"],
  "level": "P",
- "tier": "wip",
+ "tier": "quick",
  "harness": "h_adjust_ea_refcount",
  "sources": ["lib/ext2fs/blknum.c"],
  "unwind": 6,
